@@ -129,6 +129,11 @@ pub fn worker(args: &[String]) -> i32 {
     let mut samples = vec![];
     let mut done = 0;
     let deadline = std::env::var("VERIF_WORKER_DEADLINE_S").ok().and_then(|s| s.parse::<u64>().ok()).map(|s| Instant::now() + Duration::from_secs(s));
+    // on a tree that violates the property there is no point in finishing the batch: stop once
+    // this many further run indices have brought no *new* oracle id (never triggers on a clean tree)
+    let early: u64 = std::env::var("VERIF_EARLY_STOP").ok().and_then(|s| s.parse().ok()).unwrap_or((count / 8).clamp(200, 3000));
+    let mut oracles_seen = 0usize;
+    let mut last_new = 0u64;
     {
         let mut sink = Sink { prop, verif_seed: seed, bs: &mut bs, found: &mut found, samples: &mut samples, ecfg: ecfg() };
         let mut i = start;
@@ -149,6 +154,14 @@ pub fn worker(args: &[String]) -> i32 {
             done += 1;
             i += stride;
             if sink.found.len() >= 12 {
+                break;
+            }
+            let distinct = sink.found.iter().map(|f| f.oracle.as_str()).collect::<std::collections::BTreeSet<_>>().len();
+            if distinct > oracles_seen {
+                oracles_seen = distinct;
+                last_new = done;
+            }
+            if oracles_seen > 0 && done - last_new >= early {
                 break;
             }
             if deadline.is_some_and(|d| Instant::now() > d) {
